@@ -984,6 +984,76 @@ Section WithMatch.
         cbn [add mem existsb action_eqb orb andb negb app remove filter];
         try (match goal with |- context [requested b ?z] => destruct (requested b z) end); reflexivity.
   Qed.
+
+  Lemma reports_of_in evs r : In r (reports_of evs) <-> report_in r evs.
+  Proof.
+    unfold reports_of, report_in. rewrite in_flat_map. split.
+    - intros (e & He & Hr). destruct e; cbn in Hr; try contradiction; destruct Hr as [Hr|[]]; subst; eauto.
+    - intros (s & k & [H|H]); eexists; (split; [exact H|]); left; reflexivity.
+  Qed.
+
+  Lemma mem_recv_route a b : mem ARecv (route_actions a b) = true.
+  Proof. destruct (route_actions_shape a b) as [H|(x & _ & H)]; rewrite H; reflexivity. Qed.
+
+  Lemma mem_recv_sec a b : mem ARecv (fst (sec_step b (route_actions a b))) = true.
+  Proof.
+    unfold BpAgent.sec_step. destruct (b_sec b); [|apply mem_recv_route].
+    destruct (mem ADlv (route_actions a b)); [|apply mem_recv_route].
+    cbn [fst]. rewrite mem_add, mem_remove, mem_recv_route. reflexivity.
+  Qed.
+
+  Lemma finish_attempt a sub cur acts rsn :
+    b_rpt cur <> EID_NONE -> mem ARecv acts = true -> requested cur ARecv = true ->
+    exists e, In e (snd (finish a sub cur acts rsn)) /\ is_report_ev e = true.
+  Proof.
+    intros Hr Hm Hq.
+    assert (Hne : create_report (a_node a) (a_now a, a_tsn a) cur acts rsn <> None).
+    { apply create_report_iff. split; [exact Hr|]. exists ARecv. split; [apply mem_In; exact Hm | exact Hq]. }
+    destruct (finish_shape a sub cur acts rsn) as [[_ [_ Hc]]|[r0 [_ [_ [[k [H _]]|[[k H]|[H _]]]]]]].
+    - contradiction.
+    - rewrite H. eexists. split; [left; reflexivity|reflexivity].
+    - rewrite H. eexists. split; [left; reflexivity|reflexivity].
+    - rewrite H. eexists. split; [left; reflexivity|reflexivity].
+  Qed.
+
+  (** If a reception report is requested, a report-to endpoint is named and the bundle reaches a final
+      disposition (deleted, delivered or taken for forwarding), a status report is built and handed to
+      [send_bundle].  (Not so for bundles matching no route and for fragments routed to delivery, see
+      Props/C19.v.) *)
+  Theorem report_attempted_if a b :
+    accepted a b = true ->
+    mem ADlv (route_actions a b) && is_frag b = false ->
+    b_rpt b <> EID_NONE -> requested b ARecv = true ->
+    mem ADel (fst (sec_step b (route_actions a b))) || mem ADlv (fst (sec_step b (route_actions a b)))
+      || mem AFwd (fst (sec_step b (route_actions a b))) = true ->
+    exists e, In e (snd (fst (recv_core a b))) /\ is_report_ev e = true.
+  Proof.
+    intros Hacc Hnf Hr Hq Hdisp.
+    rewrite (recv_core_accepted a b Hacc), Hnf. cbn [fst snd].
+    set (acts := fst (sec_step b (route_actions a b))) in *.
+    set (rsn := snd (sec_step b (route_actions a b))).
+    assert (Hm : mem ARecv acts = true) by apply mem_recv_sec.
+    rewrite final_eq.
+    destruct (mem ADel acts) eqn:Hdel; cbn [snd].
+    - destruct (finish_attempt (seen_add a b) b b acts rsn Hr Hm Hq) as (e & He & Hk).
+      exists e. split; [apply in_or_app; right; exact He | exact Hk].
+    - destruct (mem ADlv acts) eqn:Hdlv.
+      + destruct (finish_attempt (seen_add a b) b b acts rsn Hr Hm Hq) as (e & He & Hk).
+        exists e. split; [apply in_or_app; right; apply in_or_app; left; exact He | exact Hk].
+      + cbn in Hdisp. rewrite Hdisp. cbn [app].
+        rewrite do_fwd_eq. cbn [snd].
+        pose proof (fwd_plan_spec (seen_add a b) b acts rsn) as Hs. cbv zeta in Hs.
+        destruct Hs as (_ & _ & _ & _ & _ & Hrpt & Hfl & _ & _ & _ & _ & _ & Hcase).
+        assert (Hm' : mem ARecv (plan_acts (fwd_plan (seen_add a b) b acts rsn)) = true).
+        { destruct Hcase as [(_ & Ha & _)|(Ha & _)]; rewrite Ha, mem_add, ?mem_remove, Hm; reflexivity. }
+        assert (Hq' : requested (plan_cur (fwd_plan (seen_add a b) b acts rsn)) ARecv = true)
+          by (unfold requested; rewrite Hfl; exact Hq).
+        rewrite <- Hrpt in Hr.
+        destruct (finish_attempt (plan_agent (fwd_plan (seen_add a b) b acts rsn)) b _ _
+                                 (plan_reason (fwd_plan (seen_add a b) b acts rsn)) Hr Hm' Hq') as (e & He & Hk).
+        exists e. split; [|exact Hk].
+        repeat (apply in_or_app; right). exact He.
+  Qed.
 End WithMatch.
 
 (** * Closed witnesses (evaluated inside Coq) *)
